@@ -314,8 +314,314 @@ def r4(ctx):
     ctx.floor("C01.R4", 15)
 
 
+
+# ---------------------------------------------------------------------------------------------------------------
+# R5: process_message evaluated (K6')
+PMF = "ranger::Store::process_message"
+RANGE = "ranger::Range"
+
+
+def _in_range(k, x, y):
+    """membership in the circular half-open range [x, y): x < y regular, x == y everything, x > y wrap-around"""
+    if x < y:
+        return x <= k < y
+    if x == y:
+        return True
+    return k >= x or k < y
+
+
+def _range_order(keys, x, y):
+    """order in which a store yields the entries of a range: ascending, a wrap-around range as [start, y) then [x, end)"""
+    ks = sorted(k for k in keys if _in_range(k, x, y))
+    if x > y:
+        return [k for k in ks if k < y] + [k for k in ks if k >= x]
+    return ks
+
+
+def eval_process_message(f, store, parts, split=2, maxset=1, their_order=None, invalid=(), not_inserted=(), range_error=False):
+    """ranger::Store::process_message evaluated (K6', awaits driven to completion) on a store holding the integer keys
+    `store` (entry e<k> has key k<k>), with the storage trait, the entry accessors and the three callbacks answered by an
+    oracle. parts: ("fp", x, y, keys whose fingerprint the peer reports) / ("item", x, y, [their keys], have_local).
+    their_order[k] = cmp(their value, our value) for a key both hold. Returns (parts of the reply | None | ("Err", ..), log)."""
+    from . import feval as E, coll
+    C = coll.Collections(f)
+    log = []
+    their_order = their_order or {}
+
+    def rng(x, y):
+        return E.struct(f, RANGE, x=E.Tok("k%d" % x), y=E.Tok("k%d" % y))
+
+    def knum(n):
+        n = n.strip("&*")
+        if n.startswith("k") and n[1:].lstrip("-").isdigit():
+            return int(n[1:])
+        return None
+
+    def fp_tok(keys):
+        return E.Tok("fp(%s)" % ",".join(map(str, sorted(keys))))
+
+    def range_of(it, v):
+        d = it.resolve(v)
+        return knum(it.tokname(E.field(f, d, RANGE, "x"))), knum(it.tokname(E.field(f, d, RANGE, "y")))
+
+    def ent(n):
+        n = n.strip("&*")
+        return n if len(n) > 1 and n[0] in "et" and n[1:].isdigit() else None
+
+    def oracle(kind, name, payload, site):
+        if kind == "cmp":
+            a, b = knum(name), knum(payload)
+            if a is not None and b is not None:
+                return (a > b) - (a < b)
+            if name.startswith("value(t") and payload.startswith("value(e"):
+                return their_order.get(int(name[7:-1]), 1)
+            return None
+        if kind == "eq":
+            if name.startswith("fp(") and payload.startswith("fp("):
+                return name == payload
+            return None
+        if kind == "await":
+            t, args, it = payload
+            d = it.deref_val(args[0])
+            while d is not None and d[0] == "ref":
+                d = it.deref_val(d)
+            if coll.is_seq(d):
+                # an ordered set of futures collected into a vector: each is driven to completion, in order
+                outs = []
+                for c in d[2]:
+                    c = it.deref_val(c) if c[0] == "ref" else c
+                    if c[0] == "closure":
+                        it._polling = True
+                        outs.append(it.call_body(c[1], [c, E.Tok("task-context")], 2))
+                    else:
+                        outs.append(c)
+                return coll.seq("vec", outs)
+            if name.startswith("status("):
+                return E.Tok(name)
+            if name.startswith("on_insert("):
+                return E.UNIT
+            return None
+        if kind != "call":
+            return None
+        t, args, it = payload
+        full = t["f"].get("full") or ""
+        path = t["f"].get("path") or ""
+        names = [it.tokname(a) for a in args]
+        if names and names[0].strip("&*") == "store":
+            if name == "get_range":
+                x, y = range_of(it, args[1])
+                if range_error:
+                    return E.Err(E.Tok("storage-error"))
+                return E.Ok(coll.seq("iter", [E.Ok(E.Tok("e%d" % k)) for k in _range_order(store, x, y)]))
+            if name == "get_range_len":
+                x, y = range_of(it, args[1])
+                return E.Ok(E.Int(len([k for k in store if _in_range(k, x, y)])))
+            if name == "get_fingerprint":
+                x, y = range_of(it, args[1])
+                return E.Ok(fp_tok([k for k in store if _in_range(k, x, y)]))
+            if name == "put":
+                e = names[1].strip("&*")
+                log.append(("put", e))
+                if e in not_inserted:
+                    return E.Ok(E.variant(f, "ranger::InsertOutcome", "NotInserted"))
+                return E.Ok(E.variant(f, "ranger::InsertOutcome", "Inserted", removed=E.Int(0)))
+        if name == "empty" and "Fingerprint" in path + full:
+            return fp_tok([])
+        if name == "key" and names and ent(names[0]):
+            return E.Tok("k" + ent(names[0])[1:])
+        if name == "value" and names and ent(names[0]):
+            return E.Tok("value(%s)" % ent(names[0]))
+        if name in ("call", "call_mut", "call_once", "async_call", "async_call_mut", "async_call_once") and names:
+            who = names[0].strip("&*")
+            tup = it.resolve(args[1]) if len(args) > 1 else None
+            if who == "validate_cb":
+                e = it.tokname(tup[1][1]).strip("&*") if tup is not None and tup[0] == "tuple" and len(tup[1]) > 1 else "?"
+                log.append(("validate", e))
+                return E.Int(0 if e in invalid else 1)
+            if who == "content_status_cb":
+                return E.Tok("status(%s)" % it.tokname(tup[1][0]).strip("&*")) if tup is not None and tup[0] == "tuple" and tup[1] else None
+            if who == "on_insert_cb":
+                e = it.tokname(tup[1][1]).strip("&*") if tup is not None and tup[0] == "tuple" and len(tup[1]) > 1 else "?"
+                log.append(("on_insert", e))
+                return E.Tok("on_insert(%s)" % e)
+        if name == "from_iter" and "FuturesOrdered" in path + full:
+            return it.deref_val(args[0])
+        if name == "collect" and "StreamExt" in path + full:
+            return args[0]
+        return C.handle(kind, name, payload, site)
+
+    mparts = []
+    for p_ in parts:
+        if p_[0] == "fp":
+            mparts.append(E.variant(f, "ranger::MessagePart", "RangeFingerprint", E.struct(f, "ranger::RangeFingerprint", range=rng(p_[1], p_[2]), fingerprint=fp_tok(p_[3]))))
+        else:
+            vals = coll.seq("vec", [("tuple", [E.Tok("t%d" % k), E.Tok("st%d" % k)]) for k in p_[3]])
+            mparts.append(E.variant(f, "ranger::MessagePart", "RangeItem", E.struct(f, "ranger::RangeItem", range=rng(p_[1], p_[2]), values=vals, have_local=E.Int(1 if p_[4] else 0))))
+    msg = E.struct(f, "ranger::Message", parts=coll.seq("vec", mparts))
+    heap = {"self": E.Tok("store"), "cfg": E.struct(f, "ranger::SyncConfig", max_set_size=E.Int(maxset), split_factor=E.Int(split))}
+    out, hp, ev = E.run_async(f, PMF, [E.href("self"), E.href("cfg"), msg, E.Tok("validate_cb"), E.Tok("on_insert_cb"), E.Tok("content_status_cb")], heap, oracle)
+
+    def tn(v):
+        return v[1] if v[0] == "tok" else E.describe(v, f)
+    if out is None or out[0] != "adt":
+        return ("?", E.describe(out, f) if out is not None else "None"), log
+    if out[2] != 0:
+        return ("Err", E.describe(out, f)), log
+    o = out[3][0]
+    if o[0] != "adt":
+        return ("?", E.describe(o, f)), log
+    if o[2] == 0:
+        return None, log
+    res = []
+    for p_ in E.field(f, o[3][0], "ranger::Message", "parts")[2]:
+        inner = p_[3][0]
+        if p_[2] == 0:
+            r = E.field(f, inner, "ranger::RangeFingerprint", "range")
+            res.append(("fp", knum(tn(E.field(f, r, RANGE, "x"))), knum(tn(E.field(f, r, RANGE, "y"))), tn(E.field(f, inner, "ranger::RangeFingerprint", "fingerprint"))))
+        else:
+            r = E.field(f, inner, "ranger::RangeItem", "range")
+            vals = E.field(f, inner, "ranger::RangeItem", "values")
+            hl = E.field(f, inner, "ranger::RangeItem", "have_local")
+            res.append(("item", knum(tn(E.field(f, r, RANGE, "x"))), knum(tn(E.field(f, r, RANGE, "y"))),
+                        [tuple(tn(x) for x in v[1]) if v[0] == "tuple" else tn(v) for v in vals[2]], hl[1] if hl[0] == "int" else tn(hl)))
+    return res, log
+
+
+def _fp_problems(f, store, x, y, remote, split, maxset):
+    """one incoming RangeFingerprint part against the algorithm (see r5)"""
+    sr = [k for k in store if _in_range(k, x, y)]
+    rk = sr if remote == "equal" else ([] if remote == "empty" else sr + [99])
+    res, log = eval_process_message(f, store, [("fp", x, y, rk)], split=split, maxset=maxset)
+    if remote == "equal" or (remote == "empty" and not sr):
+        return [] if res is None else ["equal fingerprints must produce no reply, got %s" % (res,)]
+    items = lambda ks: [("e%d" % k, "status(e%d)" % k) for k in ks]
+    if len(sr) <= 1 or remote == "empty":
+        want = [("item", x, y, items(_range_order(store, x, y)), 0)]
+        return [] if res == want else ["recursion anchor (at most one local entry, or the peer's side is empty): got %s, expected all local entries of the range as items with have_local=false: %s" % (res, want)]
+    if not isinstance(res, list):
+        return ["no reply / error %s although the fingerprints differ" % (res,)]
+    probs = []
+    rs = [(p_[1], p_[2]) for p_ in res]
+    # coverage of the key space of the range: a key of the range that lies in no sub-range is never reconciled
+    uni = range(-1, max(list(store) + [x, y]) + 2)
+    gap = [k for k in uni if _in_range(k, x, y) and not any(_in_range(k, a, b) for a, b in rs)]
+    if gap:
+        probs.append("keys %s of the range [%d,%d) lie in no sub-range %s" % (gap[:4], x, y, rs))
+    if sum(1 for a, b in rs if any(_in_range(k, a, b) for k in sr)) < 2 and split == 2:
+        probs.append("fewer than two sub-ranges hold local entries: the recursion makes no progress (%s)" % rs)
+    for p_, (a, b) in zip(res, rs):
+        ks = [k for k in store if _in_range(k, a, b)]
+        if p_[0] == "fp":
+            if p_[3] != "fp(%s)" % ",".join(map(str, sorted(ks))):
+                probs.append("sub-range [%d,%d): fingerprint %s is not that of its entries %s" % (a, b, p_[3], ks))
+            if len(ks) <= maxset:
+                probs.append("sub-range [%d,%d) holds %d <= max_set_size entries but is sent as a fingerprint" % (a, b, len(ks)))
+        else:
+            if sorted(v[0] for v in p_[3]) != sorted("e%d" % k for k in ks) or p_[4] != 0 or any(v[1] != "status(%s)" % v[0] for v in p_[3]):
+                probs.append("sub-range [%d,%d): items %s (have_local=%s) are not exactly its entries %s with their content status, have_local=false" % (a, b, p_[3], p_[4], ks))
+            if len(ks) > maxset:
+                probs.append("sub-range [%d,%d) holds %d > max_set_size entries but is sent as items" % (a, b, len(ks)))
+    return probs
+
+
+def _item_problems(f, store, x, y, theirs, order, have_local, invalid=(), not_inserted=()):
+    res, log = eval_process_message(f, store, [("item", x, y, theirs, have_local)], their_order=order, invalid=invalid, not_inserted=not_inserted)
+    probs = []
+    wlog = []
+    for k in theirs:
+        e = "t%d" % k
+        wlog.append(("validate", e))
+        if e not in invalid:
+            wlog.append(("put", e))
+            if e not in not_inserted:
+                wlog.append(("on_insert", e))
+    if log != wlog:
+        probs.append("effects %s, expected %s (every incoming value validated; put iff valid; announced iff inserted)" % (log, wlog))
+    diff = [k for k in _range_order(store, x, y) if not (k in theirs and order.get(k, 1) >= 0)]
+    want = None if (have_local or not diff) else [("item", x, y, [("e%d" % k, "status(e%d)" % k) for k in diff], 1)]
+    if res != want:
+        probs.append("reply %s, expected %s (our entries of the range that the peer lacks or holds an older value of, have_local=true; nothing if the peer already has ours)" % (res, want))
+    return probs
+
+
+def r5(ctx):
+    """process_message evaluated on a grid of (local store, incoming part, configuration) cells"""
+    import itertools
+    from . import feval as E
+    f = ctx.facts
+    pm = f.body(PM)
+    ctx.touch(pm, *[b for p_, b in f.bodies.items() if p_.startswith(PMF + "::")])
+    thorough = ctx.tier == "thorough"
+    universe = [1, 2, 3, 4, 5, 6] if thorough else [1, 3, 4, 6]
+    bounds = range(0, 8) if thorough else (0, 1, 3, 4, 5, 7)
+    configs = [(2, 1), (2, 2), (3, 1), (3, 2), (4, 1)] if thorough else [(2, 1), (3, 2)]
+    n = 0
+    bad = []
+    unsup = set()
+    for r_ in range(0, len(universe) + (0 if thorough else 1)):
+        for store in itertools.combinations(universe, r_):
+            for x in bounds:
+                for y in bounds:
+                    for split, maxset in configs:
+                        for remote in ("equal", "diff", "empty"):
+                            n += 1
+                            try:
+                                pr = _fp_problems(f, list(store), x, y, remote, split, maxset)
+                            except E.Unsupported as e:
+                                unsup.add(str(e))
+                                pr = ["UNSUPPORTED-FORM: %s" % e]
+                            if pr:
+                                bad.append("store %s, range [%d,%d), peer's fingerprint %s, split_factor %d, max_set_size %d: %s" % (list(store), x, y, remote, split, maxset, pr[0]))
+    ctx.check(not bad, "C01.R5", PM, "fingerprint-part-table",
+              "process_message evaluated on %d (local keys, range, peer's fingerprint {equal, different, empty}, split_factor, max_set_size) cells: equal fingerprints are skipped, "
+              "the recursion anchor sends the range's entries, otherwise the sub-ranges cover the whole range, each is described by the fingerprint or the entries of exactly its own keys, "
+              "and under the default split at least two hold entries; deviating (%d): %s" % (n, len(bad), bad[:3]), pm.sp)
+    ctx.check(n >= (3000 if not thorough else 50000), "C01.R5", PM, "fingerprint-part-table.cells", "%d cells" % n, pm.sp)
+    n2 = 0
+    bad2 = []
+    stores = [(), (2,), (2, 4), (1, 2, 4, 5)]
+    for store in stores:
+        for x, y in ((1, 5), (4, 2), (3, 3)):
+            for theirs in ((), (2,), (3,), (2, 3), (2, 4, 6)):
+                for have_local in (False, True):
+                    common = [k for k in theirs if k in store]
+                    for combo in itertools.product((-1, 0, 1), repeat=len(common)):
+                        order = dict(zip(common, combo))
+                        variants = [((), ())]
+                        if theirs and not combo.count(0) and (not common or combo[0] == 1):
+                            variants += [(("t%d" % theirs[0],), ()), ((), ("t%d" % theirs[-1],))]
+                        for invalid, notins in variants:
+                            n2 += 1
+                            try:
+                                pr = _item_problems(f, list(store), x, y, list(theirs), order, have_local, invalid, notins)
+                            except E.Unsupported as e:
+                                pr = ["UNSUPPORTED-FORM: %s" % e]
+                            if pr:
+                                bad2.append("store %s, range [%d,%d), peer sends %s (their value vs ours %s), have_local=%s, invalid %s, not inserted %s: %s" % (list(store), x, y, list(theirs), order, have_local, list(invalid), list(notins), pr[0]))
+    ctx.check(not bad2, "C01.R5", PM, "item-part-table",
+              "process_message evaluated on %d (local keys, range, incoming values, order of their value against ours, have_local, validation / insertion outcome) cells; deviating (%d): %s" % (n2, len(bad2), bad2[:3]), pm.sp)
+    ctx.check(n2 >= 300, "C01.R5", PM, "item-part-table.cells", "%d cells" % n2, pm.sp)
+    # a message with several parts: every part is processed, items before fingerprints; a failing range scan is reported
+    try:
+        res, log = eval_process_message(f, [2, 4], [("fp", 0, 3, [9]), ("item", 3, 0, [5], False), ("fp", 3, 0, [9])])
+        want = [("item", 3, 0, [("e4", "status(e4)")], 1), ("item", 0, 3, [("e2", "status(e2)")], 0), ("item", 3, 0, [("e4", "status(e4)")], 0)]
+        okm = res == want and log == [("validate", "t5"), ("put", "t5"), ("on_insert", "t5")]
+        detail = "reply %s, effects %s; expected %s" % (res, log, want)
+    except E.Unsupported as e:
+        okm, detail = False, "UNSUPPORTED-FORM: %s" % e
+    ctx.check(okm, "C01.R5", PM, "every-part-processed", detail, pm.sp)
+    try:
+        res, log = eval_process_message(f, [2, 4], [("item", 1, 5, [3], False)], range_error=True)
+        oke = isinstance(res, tuple) and res[0] == "Err"
+        detail = "a failing range scan yields %s (spec: the error)" % (res,)
+    except E.Unsupported as e:
+        oke, detail = False, "UNSUPPORTED-FORM: %s" % e
+    ctx.check(oke, "C01.R5", PM, "storage-error-reported", detail, pm.sp)
+    ctx.floor("C01.R5", 6)
+
 def run(ctx):
     ctx.run_rule("C01.R1", r1)
     ctx.run_rule("C01.R2", r2)
     ctx.run_rule("C01.R3", r3)
     ctx.run_rule("C01.R4", r4)
+    ctx.run_rule("C01.R5", r5)
